@@ -1053,8 +1053,8 @@ func runC27(c c27Case) (out lib.Outcome) {
 		// the cookie round-trips what the server packed: the completed login
 		// sends the browser where this request asked to go
 		loc := r2.Header.Get("Location")
-		if r2.Status != http.StatusFound || loc == "" {
-			out.Violate("C27/success-without-redirect", "%s: exchange succeeded but no 302 redirect followed", where2)
+		if r2.Status < 300 || r2.Status > 399 || loc == "" {
+			out.Violate("C27/success-without-redirect", "%s: exchange succeeded but no redirect followed (status %d)", where2, r2.Status)
 		} else {
 			switch judgeTarget(where2+" after "+where1, r2.Header) {
 			case "return_to":
